@@ -136,7 +136,11 @@ fn scenario(rng: &mut Rng, ctx: &mut Ctx, lazy: bool, outcomes: Vec<bool>, ops: 
                     s.live = Some(h);
                     Ok::<_, std::io::Error>(TokioIo::new(a))
                 } else {
-                    Err(std::io::Error::new(std::io::ErrorKind::ConnectionRefused, "scripted connect failure"))
+                    // how the attempt failed is the connector's business: while no connection can
+                    // be made the call is UNAVAILABLE whatever the I/O error kind
+                    let kinds = [std::io::ErrorKind::ConnectionRefused, std::io::ErrorKind::TimedOut, std::io::ErrorKind::NotFound, std::io::ErrorKind::PermissionDenied, std::io::ErrorKind::ConnectionReset, std::io::ErrorKind::AddrNotAvailable, std::io::ErrorKind::Other, std::io::ErrorKind::UnexpectedEof];
+                    let k = kinds[((seed >> 7) as usize + s.invocations as usize) % kinds.len()];
+                    Err(std::io::Error::new(k, "scripted connect failure"))
                 }
             }
         });
